@@ -1581,7 +1581,7 @@ class Gen:
 
     def maps_name(self, odd):
         r = self.r
-        k = r.below(16 if odd else 11)
+        k = r.choice([11, 12, 12, 13, 13, 14, 15] + list(range(11))) if odd else r.below(11)
         word = lambda: bytes(r.choice(b"abcxyzLIB019_.-+") for _ in range(r.range(1, 9)))
         if k == 0:
             return b""
